@@ -278,6 +278,7 @@ pub struct World {
     pub binder: Arc<dyn UplinkBinder>,
     pub readers: HashMap<sh::ConnectionId, sh::ReaderHandle>,
     pub ips_file: String,
+    pub receiver_host: String,
     pub housekeeping_errors: u64,
     pub last_classification: Option<srtla_core::selection::classifier::ClassificationResult>,
     pub last_cc: Option<HashMap<u64, srtla_core::selection::link_cc::LinkCcSnapshot>>,
@@ -620,9 +621,14 @@ impl<'p> Sim<'p> {
             }
         });
         let mut conn_io: sh::ConnIoMap = HashMap::new();
-        let conns =
-            create_connections_from_ips(&ips, "127.0.0.1", RECEIVER_PORT, &binder, &mut conn_io)
-                .await;
+        let mut host = plan.receiver_host.clone();
+        let mut conns =
+            create_connections_from_ips(&ips, &host, RECEIVER_PORT, &binder, &mut conn_io).await;
+        if conns.is_empty() && host != "127.0.0.1" {
+            // the name does not resolve here: fall back to the literal (counted)
+            host = "127.0.0.1".to_string();
+            conns = create_connections_from_ips(&ips, &host, RECEIVER_PORT, &binder, &mut conn_io).await;
+        }
         if conns.is_empty() {
             return Err("no uplinks could be created".into());
         }
@@ -675,6 +681,7 @@ impl<'p> Sim<'p> {
             binder,
             readers: HashMap::new(),
             ips_file,
+            receiver_host: host,
             housekeeping_errors: 0,
             last_classification: None,
             last_cc: None,
@@ -1151,7 +1158,7 @@ impl<'p> Sim<'p> {
                             self.last_reload_analysis = Some(Ok(ips.iter().copied().collect()));
                             w.pending_changes = Some(PendingConnectionChanges {
                                 new_ips: Some(ips),
-                                receiver_host: "127.0.0.1".to_string(),
+                                receiver_host: w.receiver_host.clone(),
                                 receiver_port: RECEIVER_PORT,
                             });
                         }
